@@ -21,13 +21,14 @@ pub struct LinkCase {
 
 static SEQ: AtomicU64 = AtomicU64::new(0);
 
-fn positions(depth: usize) -> Vec<String> {
+fn positions(depth: usize, names: &[&str]) -> Vec<String> {
     let mut out = vec![];
     let mut frontier = vec![String::new()];
     for _ in 0..depth {
         let mut next = vec![];
         for f in &frontier {
-            for n in ["a", "b"] {
+            // one name is a string prefix of the other: textual prefix tests differ from component ones
+            for n in names {
                 let p = format!("{}/{}", f, n);
                 out.push(p.clone());
                 next.push(p);
@@ -240,6 +241,26 @@ pub fn check_link(case: &LinkCase) -> CaseResult {
                 }
             }
         }
+        // recursive chmod / chown of the directory holding the link, without follow: a target outside of
+        // that directory is never touched through the link
+        if matches!(case.target_kind.as_str(), "dir" | "file") && !is_under(&case.target, &parent(&case.link)) && case.target != parent(&case.link) {
+            let before_dir_mode = v.mode(&ldir).ok();
+            let _ = v.chmod_b(&ldir).and_then(|b| b.dirs(0o751).files(0o641).exec());
+            if v.mode(&t).ok() != before_mode {
+                return Err(fail("chmod-recursive-over-link|target-mode-changed", format!("{:?} -> {:?}", before_mode, v.mode(&t).ok())));
+            }
+            let _ = v.chmod_b(&ldir).and_then(|b| b.sym("a:o+w").exec());
+            if v.mode(&t).ok() != before_mode {
+                return Err(fail("chmod-recursive-over-link|target-mode-changed", format!("{:?} -> {:?}", before_mode, v.mode(&t).ok())));
+            }
+            let _ = v.chown_b(&ldir).and_then(|b| b.owner(4323, 4324).recurse(true).exec());
+            if v.owner(&t).ok() != before_owner {
+                return Err(fail("chown-recursive-over-link|target-owner-changed", format!("{:?} -> {:?}", before_owner, v.owner(&t).ok())));
+            }
+            if let Some(m) = before_dir_mode {
+                let _ = v.chmod_b(&ldir).and_then(|b| b.all(m).no_recurse().exec());
+            }
+        }
         // remove acts on the link itself
         let target_before: Option<Vec<u8>> = if case.target_kind == "file" { std::fs::read(&t).ok().or_else(|| v.read_all(&t).ok().map(|s| s.into_bytes())) } else { None };
         match v.remove(&l) {
@@ -288,9 +309,9 @@ pub fn check_link(case: &LinkCase) -> CaseResult {
 }
 
 pub fn run(c: &Ctx) {
-    c.set_rule("exhaustive: every (link position, target position) pair over paths of depth <=3 (quick) / <=4 (thorough) with 2 names (target additionally the root and the link's own directory), every feasible target kind {dir, file, missing, link->dir, link->file}, four spellings of the target (absolute, relative to the link's directory, both also unclean with './', '//' and trailing '/.'), on Memfs; a seeded 1/12 (quick) / 1/3 (thorough) of them on a tmpfs Stdfs sandbox with std::fs::read_link as independent observer. After symlink: readlink_abs == abs(target); readlink relative and clean(dir(link)/readlink) == target; is_symlink && !is_file && !is_dir; is_symlink_dir/file == kind of target at creation; readlink on non-links fails; entry accessors; follow(true) swaps once (idempotent), follow(false) never; symlink over the existing link with another target must fail and keep the target; chmod/chown without follow leave the target's mode/owner alone; remove removes the link only. Non-trivial = link and target in different directories, or a relative spelling with at least one '..'; distinct by case.");
-    let depth = c.tier.pick(3, 4);
-    let pos = positions(depth);
+    c.set_rule("exhaustive: every (link position, target position) pair over paths of depth <=4 with the names {a,ab} (quick) / {a,ab,b} (thorough) — one name is a string prefix of another — (target additionally the root and the link's own directory), every feasible target kind {dir, file, missing, link->dir, link->file}, four spellings of the target (absolute, relative to the link's directory, both also unclean with './', '//' and trailing '/.'), on Memfs; a seeded 1/3 (quick) / 1/6 (thorough) of them on a tmpfs Stdfs sandbox with std::fs::read_link as independent observer. After symlink: readlink_abs == abs(target); readlink relative and clean(dir(link)/readlink) == target; is_symlink && !is_file && !is_dir; is_symlink_dir/file == kind of target at creation; readlink on non-links fails; entry accessors; follow(true) swaps once (idempotent), follow(false) never; symlink over the existing link with another target must fail and keep the target; chmod/chown without follow on the link, and recursive chmod/chown without follow of the directory holding the link, leave an outside target's mode/owner alone; remove removes the link only. Non-trivial = link and target in different directories, or a relative spelling with at least one '..'; distinct by case.");
+    let names: &[&str] = c.tier.pick(&["a", "ab"][..], &["a", "ab", "b"][..]);
+    let pos = positions(4, names);
     let mut cases: Vec<LinkCase> = vec![];
     for l in &pos {
         let mut targets: Vec<String> = pos.clone();
@@ -315,7 +336,7 @@ pub fn run(c: &Ctx) {
         }
     }
     c.note("memfs_cases", cases.len());
-    let den = c.tier.pick(12, 3);
+    let den = c.tier.pick(3, 6);
     let mut all = cases.clone();
     for (i, cs) in cases.iter().enumerate() {
         if sampled(c.seed, 1000, i as u64, 1, den) {
